@@ -14,7 +14,7 @@ a failing control is reported under scripted13/control/<role> (harness/interop p
 Socket waits and stalled endpoints are never verdicts: a control that ran into a wait is 'inconclusive', a dishonest
 run in which the library endpoint is still waiting counts as 'not completed'.
 """
-import os, hashlib
+import os, hashlib, atexit, shutil
 from hypothesis import strategies as st
 from vlib import build as B
 from vlib.ffi import shim
@@ -36,8 +36,15 @@ def _ders(ch):
     return [ch.certs["leaf"]] + [ch.certs["ca%d" % i] for i in reversed(range(ch.n_inter))]
 
 
+_TMP = []
+
+
 def _dir(*parts):
-    return os.path.join(B.BUILD, "tmp", "c09x13_%d" % os.getpid(), hashlib.sha1(repr(parts).encode()).hexdigest()[:16])
+    base = os.path.join(B.BUILD, "tmp", "c09x13_%d" % os.getpid())
+    if not _TMP:
+        _TMP.append(base)
+        atexit.register(shutil.rmtree, base, ignore_errors=True)
+    return os.path.join(base, hashlib.sha1(repr(parts).encode()).hexdigest()[:16])
 
 
 def _chain(tag, role, n_inter, write=False):
@@ -162,7 +169,7 @@ def _control(ctx, role, case, chain_sel):
     return "ok"
 
 
-def register(P, quick=176, thorough=4800):
+def register(P, quick=264, thorough=4800):
     @P.sub("scripted13", case_s, quick=quick, thorough=thorough, chunk=11)
     def scripted13(case, ctx):
         """TLS 1.3 library endpoint against a dishonest scripted peer (pure-Python TLS 1.3, consistent Finished): must not complete"""
